@@ -110,6 +110,7 @@ def run_check(pid, mod, args, scratch, t0):
     limit = float(os.environ.get("VERIF_TIER_LIMIT_S") or getattr(mod, "TIER_LIMIT_S", TIER_LIMIT_S)[tier])
     env = child_env()
     env["VERIF_DEADLINE"] = str(t0 + limit * 0.85)
+    env.setdefault("VERIF_SHRINK_BUDGET_S", "40" if tier == "quick" else "300")
     procs = []
     # replay tier (committed regression cases and finding witnesses) runs as its own process
     replays = sorted(glob.glob(os.path.join(ROOT, "replays", pid, "*.json")))
